@@ -167,6 +167,9 @@ def prep(Hh, st):
         return line, run
     if op == 'squeeze':
         line = dict(op='squeeze', a=A, axes=st['axes'])
+        sq = st['axes'] if st['axes'] is not None else [i for i in range(a.rank) if a.shape[i] == 1]
+        if any(-a.rank <= x < a.rank and a.legs[x].block_number > 1 for x in sq):
+            st['tag'] = 'zero-size-block'   # a length-1 leg with several blocks (all but one of size 0)
 
         def run():
             axes = st['axes'] if st['axes'] is not None else [i for i in range(a.rank) if a.shape[i] == 1]
@@ -444,8 +447,9 @@ def prep(Hh, st):
             inds = tuple(slice(*i['s']) if isinstance(i, dict) else i for i in st['inds'])
             dense = a.to_ndarray().copy()
             dense[inds] = b.to_ndarray()
-            if any(np.shares_memory(x, y) for x in a._data for y in b._data):
-                dense = None   # assignment between views of the same blocks: values are C03's business
+            blocks = list(a._data) + list(b._data)
+            if any(np.shares_memory(x, y) for i, x in enumerate(blocks) for y in blocks[i + 1:]):
+                dense = None   # aliased blocks (shallow copies, concatenate(copy=False)): values are C03's business
             a[inds] = b
             return dict(outs={}, touched={st['a']}, qt={st['a']: qt_of(a)}, dense={st['a']: dense})
         return None, run
